@@ -358,7 +358,12 @@ def _chwidth(prog, rep):
             for path in fn_paths(body):
                 pv = PathView(prog, body, path)
                 v = pv.value_before_term((0, ()), path[-1])
-                for a, pol in pv.facts():
+                pf = pv.facts()
+                other = [(a, pol) for a, pol in pf if not (a[0] == "cmp" and a[1] in ("Lt", "Le") and CH in (a[2], a[3]))]
+                r.check(not other and len(pf) == 1, "only-cutoff", "the width depends on nothing but ch < cut-off", "one comparison per path",
+                        "without unicode-width ch_width also depends on %s: the fallback must be 1 below U+1100 and 2 from there on"
+                        % [(D(a[1]) if a[0] == "b" else a[0], pol) for a, pol in other][:3])
+                for a, pol in pf:
                     if a[0] == "cmp" and a[1] == "Lt" and a[2] == CH and a[3][0] == "char":
                         cutoff = a[3][1]
                         vals[pol] = v
